@@ -131,7 +131,7 @@ func (n *EvalUnaryNode) EvalBool(scope *Scope, executionState ExecutionState) (b
 	if err != nil {
 		return false, err
 	}
-	if typ == ast.TBool {
+	if typ == ast.TBool && n.operator == ast.TokenNot {
 		result, err := n.nodeEvaluator.EvalBool(scope, executionState)
 		if err != nil {
 			return false, err
